@@ -43,47 +43,61 @@ Proof.
 Qed.
 
 (* ---- all histories, from the job as created ---- *)
-Theorem holds_all_histories j0 ops : C17_holds j0 ops (observe_fx true j0 ops).
+Lemma core_fx fx j0 ops :
+  length (observe_fx fx j0 ops) = length ops /\ evict_guard j0 (observe_fx fx j0 ops)
+  /\ absorbing j0 (observe_fx fx j0 ops) /\ timeout_deletes j0 (observe_fx fx j0 ops)
+  /\ at_most_once ops (observe_fx fx j0 ops) /\ frame j0 ops (observe_fx fx j0 ops).
 Proof.
-  rewrite observe_fx_eq. unfold C17_holds.
-  repeat match goal with |- _ /\ _ => split end.
+  rewrite observe_fx_eq. repeat match goal with |- _ /\ _ => split end.
   - apply obs_length.
-  - intros D o e Io Ie Ev. apply (trace_guard true ops (init_state j0) D o e Io Ie Ev).
-  - apply (trace_absorbing true ops (init_state j0)).
-  - apply (trace_timeout true ops (init_state j0)).
+  - intros D o e Io Ie Ev. apply (trace_guard fx ops (init_state j0) D o e Io Ie Ev).
+  - apply (trace_absorbing fx ops (init_state j0)).
+  - apply (trace_timeout fx ops (init_state j0)).
   - apply trace_once.
-  - apply (trace_frame true ops (init_state j0)).
-  - intros D o e Io Ie Ev. apply (trace_guard true ops (init_state j0) D o e Io Ie Ev). reflexivity.
+  - apply (trace_frame fx ops (init_state j0)).
 Qed.
 
-Theorem prop_code_model j0 ops : prop_code j0 ops (observe j0 ops) = 0.
-Proof. apply prop_code_spec. exact (holds_all_histories j0 ops). Qed.
+(* clauses 1-7 *)
+Theorem core_all_histories j0 ops : C17_core j0 ops (observe_fx true j0 ops).
+Proof.
+  destruct (core_fx true j0 ops) as (L & G & A & T & O & F). unfold C17_core.
+  repeat match goal with |- _ /\ _ => split end; auto.
+  rewrite observe_fx_eq. intros D o e Io Ie Ev.
+  apply (trace_guard true ops (init_state j0) D o e Io Ie Ev). reflexivity.
+Qed.
+
+Lemma leak_shape fx j0 ops : leak_only_unrecorded false j0 ops (observe_fx fx j0 ops) = true.
+Proof. rewrite observe_fx_eq. apply (trace_leak_shape fx ops (init_state j0) false). Qed.
+
+(* the current model: the property holds, or the only failing clause is the strict timeout clause 8
+   and the failure has the shape of the known finding (sig 2) *)
+Theorem prop_code_model j0 ops :
+  prop_code j0 ops (observe j0 ops) = 0 \/ finding_code j0 ops (observe j0 ops) = 2.
+Proof.
+  unfold observe. change recheck_same_node with true.
+  destruct (core_all_histories j0 ops) as (L & G & A & T & O & F & N).
+  assert (P := prop_code_tail j0 ops _ L G A T O F).
+  apply evict_other_nodeb_spec in N. rewrite N in P. cbn in P.
+  unfold finding_code. rewrite P.
+  destruct (timeout_cleansb false j0 ops (observe_fx true j0 ops)); cbn; [left; reflexivity|right].
+  rewrite leak_shape. reflexivity.
+Qed.
 
 (* ---- the variant before commit 025e424 (regression record of the finding) ---- *)
-Theorem old_only_known_shape j0 ops :
-  prop_code j0 ops (observe_fx false j0 ops) = 0 \/ finding_code j0 ops (observe_fx false j0 ops) = 1.
+Theorem old_only_known_shapes j0 ops :
+  prop_code j0 ops (observe_fx false j0 ops) = 0
+  \/ finding_code j0 ops (observe_fx false j0 ops) = 1 \/ finding_code j0 ops (observe_fx false j0 ops) = 2.
 Proof.
-  assert (P : prop_code j0 ops (observe_fx false j0 ops) = 0 \/ prop_code j0 ops (observe_fx false j0 ops) = 7).
-  { rewrite observe_fx_eq. apply prop_code_7.
-    - apply obs_length.
-    - intros D o e Io Ie Ev. apply (trace_guard false ops (init_state j0) D o e Io Ie Ev).
-    - apply (trace_absorbing false ops (init_state j0)).
-    - apply (trace_timeout false ops (init_state j0)).
-    - apply trace_once.
-    - apply (trace_frame false ops (init_state j0)). }
-  destruct P as [P|P]; [left; exact P|right].
-  unfold finding_code. rewrite P. cbn.
-  destruct (direct j0) eqn:D.
-  - exfalso. unfold prop_code in P.
-    destruct (negb (Nat.eqb _ _)); [discriminate|].
-    destruct (negb (evict_guardb _ _)); [discriminate|].
-    destruct (negb (absorbingb _ _)); [discriminate|].
-    destruct (negb (timeout_deletesb _ _)); [discriminate|].
-    destruct (negb (at_most_onceb _ _)); [discriminate|].
-    destruct (negb (frameb _ _ _)); [discriminate|].
-    unfold evict_other_nodeb in P. rewrite D in P. cbn in P. discriminate.
-  - rewrite observe_fx_eq. pose proof (trace_shape_old ops (init_state j0) D) as Sh.
-    cbn [init_state sj] in Sh. rewrite Sh. reflexivity.
+  destruct (core_fx false j0 ops) as (L & G & A & T & O & F).
+  assert (P := prop_code_tail j0 ops _ L G A T O F).
+  unfold finding_code. rewrite P.
+  destruct (evict_other_nodeb j0 (observe_fx false j0 ops)) eqn:N; cbn.
+  - destruct (timeout_cleansb false j0 ops (observe_fx false j0 ops)); cbn; [left; reflexivity|right; right].
+    rewrite leak_shape. reflexivity.
+  - right; left. destruct (direct j0) eqn:D.
+    + unfold evict_other_nodeb in N. rewrite D in N. discriminate.
+    + rewrite observe_fx_eq. pose proof (trace_shape_old ops (init_state j0) D) as Sh.
+      cbn [init_state sj] in Sh. rewrite Sh. reflexivity.
 Qed.
 
 (* the corpus case f1: pod u1 on n1, reservation scheduled on n2, the eviction call fails once,
@@ -96,3 +110,14 @@ Theorem old_other_node_refuted :
   exists inp, let '(j0, ops) := decode inp in
     prop_code j0 ops (observe_fx false j0 ops) = 7 /\ prop_code j0 ops (observe_fx true j0 ops) = 0.
 Proof. exists witness_f1. vm_compute. split; reflexivity. Qed.
+
+(* the known finding sig 2 (corpus case l1, replayed on the real code with correspondence = true):
+   the Update that records ReservationRef fails (4th write), the TTL passes before the next
+   reconcile, the job is failed for timeout and the reservation it created still exists *)
+Definition witness_l1 : list Z :=
+  [0;0;5;1;1;0;0;4; 2;1;1;1;2;1;0;0;0;0;0; 0;8;0;0;0;0;0;0;0;0;0; 4;6;0;0;0;0;0;0;0;0;0; 0;0;0;0;0;0;0;0;0;0;0].
+
+Theorem timeout_leak_refuted :
+  exists inp, let '(j0, ops) := decode inp in
+    prop_code j0 ops (observe j0 ops) = 8 /\ finding_code j0 ops (observe j0 ops) = 2.
+Proof. exists witness_l1. vm_compute. split; reflexivity. Qed.
